@@ -79,6 +79,14 @@ def _l1_tasks(r):
     return r
 
 
+def _l1_subject_errors(r):
+    """L1 on the subjects' error emitters (a guard held across the error broadcast)"""
+    r.instances = [i for i in r.instances if i[0] and str(i[0][0]).startswith("subjects::") and str(i[0][0]).split("::")[-1] in ("next", "error", "complete")]
+    # the emitter methods carry the subject's type name as their stable name (closures inside observable() have a /ROLE suffix)
+    r.violations = [v for v in r.violations if v.key and str(v.key[0]).startswith("subjects::") and "/" not in str(v.key[0])]
+    return r
+
+
 def _only_subjects(r):
     r.instances = [i for i in r.instances if i[0] and str(i[0][0]).lstrip("<").startswith("subjects::")]
     r.violations = [v for v in r.violations if v.key and str(v.key[0]).lstrip("<").startswith("subjects::")]
@@ -108,6 +116,8 @@ def rules_for(pid):
             ("INIT", lambda c: RX.init_rule(c.P, c.E, ("observer::",)), 2),
             ("K-slot-fresh", lambda c: RK.k_slot_fresh(c.P, c.E), 4),
             ("O-slot-purity", lambda c: RO.o_slot_purity(c.P, c.E), 3),
+            ("WIRE-subscribe", lambda c: RX.wire_rule(c.P, c.E, c.H, lambda m: m == "observable"), 1),
+            ("F-clear-total", lambda c: RO.f_clear_total(c.P, c.E), 1),
         ],
         "C02": [
             ("H-complete", lambda c: RH.h_complete(c.P, c.E, c.H, scope_c02), 14),
@@ -164,6 +174,8 @@ def rules_for(pid):
             ("AMB", lambda c: ROPS.amb_rule(c.P, c.E, c.H), 1),
             ("GATE", lambda c: ROPS.gates_rule(c.P, c.E, c.H), 4),
             ("WIRE", lambda c: RX.wire_rule(c.P, c.E, c.H, lambda m: m in RECOVERY), 8),
+            # a subject that holds a guard across its error broadcast blocks the resubscription retry / on_error_resume_next make from inside it
+            ("L1-subject-emitters", lambda c: _l1_subject_errors(RL.l1_reentrancy(c.P, c.E, c.H)), 0),
         ],
         "C05": [
             ("O-unsub-order", lambda c: RO.o_unsub_order(c.P, c.E), 4),
@@ -179,6 +191,8 @@ def rules_for(pid):
             ("F-slot-truth", lambda c: RO.f_slot_truth(c.P, c.E), 4),
             ("Q", lambda c: RQ.q_rules(c.P, c.E), 10),
             ("HOOK-STORE", lambda c: RO.hook_store(c.P, c.E, ("observer::", "internals::stream_controller::")), 2),
+            ("WIRE-subscribe", lambda c: RX.wire_rule(c.P, c.E, c.H, lambda m: m == "observable"), 1),
+            ("F-clear-total", lambda c: RO.f_clear_total(c.P, c.E), 1),
         ],
         "C06": [
             ("H-early-stop", lambda c: RH.h_early_stop(c.P, c.E, c.H), 24),
@@ -214,6 +228,8 @@ def rules_for(pid):
             ("Q-lock-order", lambda c: _only(RQ.q_rules(c.P, c.E), ("L3", "Q1", "Q10", "Q2", "Q3", "Q4")), 5),
             # a take that never finishes leaves subscribe() spinning in an endless but cancellable source (repeat, a while-is_subscribed loop)
             ("COUNT-take", lambda c: _only(RCNT.count_rule(c.P, c.E, c.H), ("operators::take::Take",)), 1),
+            # the to_vec future: a terminal that lands between poll's test and its waker store must still wake the task; lock order of its cells
+            ("W", lambda c: RW.w_rules(c.P, c.E), 4),
         ],
         "C08": [
             ("Q", lambda c: RQ.q_rules(c.P, c.E), 10),
@@ -234,6 +250,8 @@ def rules_for(pid):
             ("K-slot-fresh", lambda c: RK.k_slot_fresh(c.P, c.E), 4),
             # a source subscribed on behalf of a subscriber that has already finished is never released (nor are the closures upstream of it)
             ("D-compose2-start_with", lambda c: _only(ROPS.compose_rule(c.P, c.E, c.H), ("operators::start_with::StartWith",)), 1),
+            # a source wired up after its downstream has ended is never released
+            ("H-register-first", lambda c: RH.h_register_first(c.P, c.E, c.H), 9),
         ],
         "C18": [
             ("W", lambda c: RW.w_rules(c.P, c.E), 4),
@@ -306,6 +324,8 @@ def rules_for(pid):
             ("INIT", lambda c: RX.init_rule(c.P, c.E, ("operators::ref_count::", "operators::replay::")), 2),
             ("HOOK-STORE", lambda c: RO.hook_store(c.P, c.E, ("subjects::subject::",)), 2),
             ("WIRE", lambda c: RX.wire_rule(c.P, c.E, c.H, lambda m: m in ("publish", "ref_count", "replay")), 6),
+            # the registry is emptied at a terminal: a finished subscriber that never unsubscribes must not keep the count above zero
+            ("J-terminal", lambda c: _only(RJ.j_rules(c.P, c.E), ("J3", "J4")), 2),
         ],
         "C15": [
             ("T1", lambda c: RS.t1_abort_wired(c.P, c.E), 3),
@@ -320,6 +340,8 @@ def rules_for(pid):
             ("HOOK-STORE", lambda c: RO.hook_store(c.P, c.E, ("internals::stream_controller::",)), 1),
             # a posted task that blocks on a lock its own thread holds never returns to the queue: the worker never sees the abort
             ("L1-tasks", lambda c: _l1_tasks(RL.l1_reentrancy(c.P, c.E, c.H)), 1),
+            # disconnect must find the connection: connect stores the handle under the guard it tested under
+            ("P-connect", lambda c: _only(RJ.p_rules(c.P, c.E), ("P2", "P3", "P6")), 2),
         ],
         "C19": [
             ("A19b", lambda c: RJ.a19b(c.P, c.E), 3),
@@ -333,6 +355,8 @@ def rules_for(pid):
             ("CLONE-SHARES", _xclone(2, "observer::", "internals::function_wrapper::"), 2),
             ("INIT", lambda c: RX.init_rule(c.P, c.E, ("observer::",)), 2),
             ("O-slot-purity", lambda c: RO.o_slot_purity(c.P, c.E), 3),
+            ("WIRE-subscribe", lambda c: RX.wire_rule(c.P, c.E, c.H, lambda m: m == "observable"), 1),
+            ("F-clear-total", lambda c: RO.f_clear_total(c.P, c.E), 1),
         ],
         "C14": [
             ("K-fresh-state", lambda c: RK.k_fresh_state(c.P, c.E), 28),
